@@ -45,7 +45,7 @@ void do_plan(int tier)
   if (lane == LANE_DEBUG)
     plan.init_threads = 0;
   else if (lane == LANE_INTERNAL)
-    plan.init_threads = 2 + (int)sim_plan(3);  // the internal back end needs a worker for fire-and-forget tasks
+    plan.init_threads = 1 + (int)sim_plan(4);  // 1: the calling thread is the only tasking thread
   else
     plan.init_threads = sim_plan(3) ? 1 + (int)sim_plan(4) : 0;
   sim_set_cores(2 + (int)sim_plan(4));
@@ -75,7 +75,7 @@ void do_plan(int tier)
   }
   plan.reinit_threads = 0;
   if (plan.init_threads > 0 && sim_plan(5) == 0) {
-    plan.reinit_threads = (lane == LANE_INTERNAL ? 2 : 1) + (int)sim_plan(3);
+    plan.reinit_threads = 1 + (int)sim_plan(3);
     sim_probe(P_REINIT);
   }
   plan.sporadic = 0;
